@@ -47,7 +47,7 @@ def _one_run(job):
         g0 = emg3d.TensorMesh([np.ones(4)]*3, (0, 0, 0))
         emg3d.solve(emg3d.Model(g0, 1.0), emg3d.get_source_field(
             g0, (2, 2, 2, 0, 0), 1.0), plain=True, verb=0, maxit=1)
-        prob = simreplay.Problem(dict(four=True), seed=5)
+        prob = simreplay.Problem(dict(four=True, irregular=True), seed=5)
         prob.obs = np.array(ref["obs_re"]) + 1j*np.array(ref["obs_im"])
         if gmode != "same" and ref.get("res"):
             # another simulation (other model, same grids) in this process
@@ -117,7 +117,7 @@ def _one_run(job):
         # the new model's results whatever the execution mode
         # (one task per batch: not part of the recorded N = 4 trace)
         _mp.process_map = orig_pm
-        p1 = simreplay.Problem(dict(one=True), seed=5)
+        p1 = simreplay.Problem(dict(one=True, irregular=True), seed=5)
         s1 = p1.simulation(0, os.path.join(tmp, "fd1") if file_mode else None,
                            "same")
         s1.max_workers = maxw
@@ -237,7 +237,7 @@ def run(tier, replay=None):
     from . import simreplay
     ref0 = run_jobs([(1, False, False, None, 0, {"obs_re": None})], 1) \
         if False else None
-    prob = simreplay.Problem(dict(four=True), seed=5).prepare(oracles=False)
+    prob = simreplay.Problem(dict(four=True, irregular=True), seed=5).prepare(oracles=False)
     obs = prob.obs
     ref = {}
     GM = ("same", "input", "dict")
